@@ -9,6 +9,7 @@ package main
 
 import (
 	"context"
+	"errors"
 	"fmt"
 	"math/big"
 	"sort"
@@ -16,6 +17,7 @@ import (
 	"time"
 
 	"github.com/influxdata/influxdb/v2/inmem"
+	"github.com/influxdata/influxdb/v2/kv"
 	"github.com/influxdata/influxdb/v2/models"
 	"github.com/influxdata/influxdb/v2/v1/coordinator"
 	"github.com/influxdata/influxdb/v2/v1/services/meta"
@@ -29,7 +31,7 @@ const (
 )
 
 type jop struct {
-	K    string  `json:"k"` // setd create lookup range delete reload write
+	K    string  `json:"k"` // setd create lookup range delete reload write failnext (= the next store Update fails once)
 	T    int64   `json:"t"`
 	Lo   int64   `json:"lo,omitempty"`
 	Hi   int64   `json:"hi,omitempty"`
@@ -93,8 +95,23 @@ func (nopStore) WriteToShard(ctx context.Context, shardID uint64, points []model
 	return nil
 }
 
+// flakyStore is the in-memory kv store with fault injection: while failNext > 0 an Update
+// transaction fails before anything is written (disk full / I/O error during a metadata commit).
+type flakyStore struct {
+	*inmem.KVStore
+	failNext int
+}
+
+func (s *flakyStore) Update(ctx context.Context, fn func(kv.Tx) error) error {
+	if s.failNext > 0 {
+		s.failNext--
+		return errors.New("injected: no space left on device")
+	}
+	return s.KVStore.Update(ctx, fn)
+}
+
 type env struct {
-	store *inmem.KVStore
+	store *flakyStore
 	c     *meta.Client
 	pw    *coordinator.PointsWriter
 }
@@ -147,7 +164,7 @@ func must(err error) {
 
 func newEnv(d int64) *env {
 	e := &env{}
-	e.store = inmem.NewKVStore()
+	e.store = &flakyStore{KVStore: inmem.NewKVStore()}
 	must(e.store.CreateBucket(context.Background(), meta.BucketName))
 	cfg := meta.NewConfig()
 	cfg.RetentionAutoCreate = false
@@ -169,6 +186,10 @@ func newEnv(d int64) *env {
 // UpdateRetentionPolicy normalise durations below 1h to 1h; the property quantifies
 // over all durations)
 func (e *env) setD(d int64) {
+	// harness manipulation, not under test: never failed (a pending failure stays pending)
+	pending := e.store.failNext
+	e.store.failNext = 0
+	defer func() { e.store.failNext = pending }()
 	data := e.c.Data()
 	data.Databases[0].RetentionPolicies[0].ShardGroupDuration = time.Duration(d)
 	must(e.c.SetData(&data))
@@ -245,6 +266,9 @@ func (e *env) exec(o jop) (r jres) {
 	case "reload":
 		e.reload(o.Mode)
 		r.Kind = "unit"
+	case "failnext":
+		e.store.failNext = 1
+		r.Kind = "unit"
 	case "write":
 		pts := make([]models.Point, len(o.Ts))
 		for i, t := range o.Ts {
@@ -301,6 +325,8 @@ func opTerm(o jop) string {
 		return "ODelete " + vh.N(o.ID)
 	case "reload":
 		return "OReload"
+	case "failnext":
+		return "OFailNext"
 	case "write":
 		return "OWrite " + zzs(o.Ts)
 	}
@@ -432,7 +458,7 @@ func clampNano(b *big.Int) int64 {
 
 func main() {
 	w := vh.New("C18", "From Verif Require Import Base.Prelude Model.C18.\nLocal Open Scope Z_scope.", "case", "check")
-	w.Rule = "histories of 3-9 ops (setd/create/lookup/range/delete/reload/write) on one retention policy of a real meta.Client; durations from 1ns to MaxInt64 ns, changed mid-history so that clipping against existing groups happens; timestamps: MinNanoTime/MaxNanoTime and neighbours, 0 and +-1, +-1 around window boundaries relative to year 1 (Go's Truncate) and relative to 1970, +-1 around bounds of earlier windows, a small cluster around a random centre. Hand-picked histories first. Non-trivial: >=2 creates/writes, >=2 groups at the end and >=1 reload. Distinct: distinct Gallina terms."
+	w.Rule = "histories of 3-9 ops (setd/create/lookup/range/delete/reload/write, plus failnext = the next kv-store Update fails once, usually followed by a create/write that needs a new group, its retry and a reload) on one retention policy of a real meta.Client; durations from 1ns to MaxInt64 ns, changed mid-history so that clipping against existing groups happens; timestamps: MinNanoTime/MaxNanoTime and neighbours, 0 and +-1, +-1 around window boundaries relative to year 1 (Go's Truncate) and relative to 1970, +-1 around bounds of earlier windows, a small cluster around a random centre. Hand-picked histories first. Non-trivial: >=2 creates/writes, >=2 groups at the end and >=1 reload. Distinct: distinct Gallina terms."
 	var rc jcase
 	if w.ReplayCase(&rc) {
 		run(w, &rc)
@@ -452,6 +478,9 @@ func main() {
 		{D: 1<<63 - 1, Ops: []jop{{K: "create", T: maxNano}, {K: "create", T: 0}, {K: "create", T: minNano}, {K: "reload"}, {K: "write", Ts: []int64{maxNano, 0, minNano}}}},
 		// clipping after a duration change
 		{D: 10, Ops: []jop{{K: "create", T: 1005}, {K: "setd", D: 7}, {K: "create", T: 998}, {K: "create", T: 1012}, {K: "setd", D: 100}, {K: "create", T: 950}, {K: "reload"}, {K: "range", Lo: 900, Hi: 1100}}},
+		// store failure exactly during the commit that creates a group, retry, further write, restart, look-ups, new window
+		{D: int64(h), Ops: []jop{{K: "create", T: 1000 * int64(h)}, {K: "failnext"}, {K: "create", T: 2000*int64(h) + 5}, {K: "create", T: 2000*int64(h) + 5}, {K: "write", Ts: []int64{2000*int64(h) + 9}}, {K: "reload"}, {K: "lookup", T: 2000*int64(h) + 5}, {K: "range", Lo: 2000 * int64(h), Hi: 2000*int64(h) + 10}, {K: "create", T: 3000 * int64(h)}}},
+		{D: 1000, Ops: []jop{{K: "failnext"}, {K: "write", Ts: []int64{5500, 7500}}, {K: "write", Ts: []int64{5500, 7500}}, {K: "reload", Mode: 1}, {K: "write", Ts: []int64{5501, 9000}}, {K: "failnext"}, {K: "delete", ID: 1}, {K: "lookup", T: 5500}, {K: "reload"}, {K: "lookup", T: 5500}}},
 		// delete then re-create the same window
 		{D: 1000, Ops: []jop{{K: "create", T: 5500}, {K: "delete", ID: 1}, {K: "create", T: 5500}, {K: "delete", ID: 9}, {K: "reload"}, {K: "lookup", T: 5500}, {K: "write", Ts: []int64{5000, 5999, 6000, 4999}}}},
 	}
@@ -523,6 +552,27 @@ func main() {
 		ngroups := uint64(0)
 		for i := 0; i < nops; i++ {
 			var o jop
+			if r.IntN(7) == 0 { // store failure during the next commit, then (usually) the same request again
+				c.Ops = append(c.Ops, jop{K: "failnext"})
+				var f jop
+				if r.IntN(3) == 0 {
+					f = jop{K: "write", Ts: []int64{pick(), pick()}}
+					seen = append(seen, f.Ts...)
+					ngroups += 2
+				} else {
+					f = jop{K: "create", T: pick()}
+					seen = append(seen, f.T)
+					ngroups++
+				}
+				c.Ops = append(c.Ops, f)
+				if r.IntN(5) != 0 {
+					c.Ops = append(c.Ops, f)
+				}
+				if r.IntN(2) == 0 {
+					c.Ops = append(c.Ops, jop{K: "reload", Mode: r.IntN(2)})
+				}
+				continue
+			}
 			switch k := r.IntN(20); {
 			case k < 6:
 				o = jop{K: "create", T: pick()}
